@@ -112,13 +112,13 @@ Theorem develop_lattice_errors :
   (List.length (extract_surfaces dic ids) <> 2%nat -> List.length (extract_surfaces dic ids) <> 4%nat ->
    List.length (extract_surfaces dic ids) <> 6%nat -> develop_lattice RS dic ids cell = Err ELattice) /\
   (forall vecs, squareLatticeBaseVectors RS (extract_surfaces dic ids) = Ok vecs ->
-     List.length vecs <> List.length bs -> Z.of_nat (List.length vecs) <> dims bs ->
+     ((List.length bs < List.length vecs)%nat \/ ~ Forall trivial_range (skipn (List.length vecs) bs)) ->
      develop_lattice RS dic ids cell = Err ELattice).
 Proof.
   split.
   - intros H2 H4 H6. unfold develop_lattice, develop_lattice_with.
     rewrite (square_wrong_count _ H2 H4 H6), Hfill. reflexivity.
-  - intros vecs Hv H1 H2. unfold develop_lattice. rewrite Hv.
+  - intros vecs Hv H. unfold develop_lattice. rewrite Hv.
     now apply (develop_lattice_bad_dimensions cell vecs bs spec).
 Qed.
 End Top.
